@@ -1,5 +1,6 @@
 import BeffVerif.Props.C11
 import BeffVerif.Props.C11Frag
+import BeffVerif.Props.C11Open
 open BeffVerif.C11
 #print axioms strict_implies_default
 #print axioms strict_object_iff
@@ -12,3 +13,4 @@ open BeffVerif.C11
 #print axioms BeffVerif.C11F.strict_iff_default_and_noExtra
 #print axioms BeffVerif.C11F.strict_exactly_undeclared_keys
 #print axioms BeffVerif.C11F.strict_example
+#print axioms BeffVerif.C11O.strict_eq_default_of_open
